@@ -958,10 +958,13 @@ def pipeline(ctx):
             k = '%s:%s:%s' % (cu, fam, bad or 'ok')
             undemanded[k] = undemanded.get(k, 0) + 1
             continue
+        if not bad:
+            ctx.passed('%s|%s' % (cu, q))          # stale when a committed failing set lists it
         if bad:
             sig = 'numfrac:%s:%s:%s' % (cu, fam, bad)
             per_sig[sig] = per_sig.get(sig, 0) + 1
-            if per_sig[sig] > 4:          # a frequent failure must not crowd out the other signatures (vcheck caps the list)
+            # a frequent failure must not crowd out the other signatures (vcheck caps the list); recorded ones never capped
+            if per_sig[sig] > 4 and not ctx.is_known(sig, '%s|%s' % (cu, q)):
                 continue
             ctx.report('property', sig, 'recognize_number(%r, %s): %s' % (q, cu, detail),
                        failing_input={'culture': cu, 'query': q, 'expression': expr, 'family': fam, 'result': res,
